@@ -760,13 +760,13 @@ func (c *Ctx) ruleFaultClassLive() {
 // ---------- error receiver ----------
 
 var errReceiverExceptions = map[string]string{
-	"core.(*JApiCore).addBody":              "ParametersAreForbidden is reported on the parent (the Request/response that carries the parameters): documented intent",
-	"core.checkJsonRpcUrlChildCompatible":   "the error is reported on the offending child directive",
-	"core.(*JApiCore).processDirective":     "an error raised while a macro body is pasted is relocated to the PASTE directive that caused it (by design of the expansion; the error inside the macro keeps its message)",
-	"core.(*JApiCore).findPaste":            "walks the macro body: errors are located on the PASTE child it examines",
-	"core.(*JApiCore).checkUserType":        "the error is located on the raw user type named by the schema error",
-	"core.jschemaToJAPIError":               "converter: locates on the directive it is given",
-	"core.(*JApiCore).processContext":       "located on the incoming directive d (first parameter)",
+	"core.(*JApiCore).addBody":                 "ParametersAreForbidden is reported on the parent (the Request/response that carries the parameters): documented intent",
+	"core.checkJsonRpcUrlChildCompatible":      "the error is reported on the offending child directive",
+	"core.(*JApiCore).processDirective":        "an error raised while a macro body is pasted is relocated to the PASTE directive that caused it (by design of the expansion; the error inside the macro keeps its message)",
+	"core.(*JApiCore).findPaste":               "walks the macro body: errors are located on the PASTE child it examines",
+	"core.(*JApiCore).checkUserType":           "the error is located on the raw user type named by the schema error",
+	"core.jschemaToJAPIError":                  "converter: locates on the directive it is given",
+	"core.(*JApiCore).processContext":          "located on the incoming directive d (first parameter)",
 	"catalog.(*Catalog).tagsFromTagsDirective": "located on the Tags directive it was given",
 }
 
@@ -845,8 +845,8 @@ func (c *Ctx) ruleErrReceiver() {
 // ---------- dropped errors ----------
 
 var droppedErrorExceptions = map[string]string{
-	"catalog.(ObjectBuilder).Build | s.LoadOnce.Do": "known finding F15 (C04): load error of the path-variable schema is discarded",
-	"catalog.(ObjectBuilder).Build | s.Compile":     "known finding F15 (C04): compile error of the path-variable schema is discarded",
+	"catalog.(ObjectBuilder).Build | s.LoadOnce.Do":        "known finding F15 (C04): load error of the path-variable schema is discarded",
+	"catalog.(ObjectBuilder).Build | s.Compile":            "known finding F15 (C04): compile error of the path-variable schema is discarded",
 	"core.(*JApiCore).UserTypesData | core.userTypes.Each": "the closure returns nil on every path",
 }
 
